@@ -63,3 +63,14 @@ def parse_error_mapper(cx):
                 b = _body_by_path(cx, "varlink_parser", cl[0])
                 if b is not None: return b, tf
     return tf, tf
+
+
+def job_calls(body):
+    """where the worker runs a queued job: FnBox::call_box, a call through a fn pointer, or `job()` on a boxed `dyn FnOnce`"""
+    out = list(body.calls("=call_box")) or [t for t in body.calls() if t.callee.indirect]
+    if not out:
+        for t in body.calls("=call_once", "=call_mut", "=call"):
+            if "std::ops::Fn" not in (str(t.callee.trait or "") + t.callee.path): continue
+            ty = body.ty(t.args[0].place.l) if t.args and t.args[0].place is not None else ""
+            if "dyn " in ty or "dyn std::ops::Fn" in str(t.callee.targs): out.append(t)
+    return out
